@@ -197,6 +197,10 @@ func main {
 	}
 }
 `},
+	// sources with Windows line endings inside block comments and raw strings
+	{"crlf_q", "q.wa", "/* block comment of Q\r\n   second line of the comment q */\r\nfunc main {\r\n\ts := `raw q\r\nline two of q`\r\n\tprintln(s, len(s))\r\n}\r\n"},
+	{"crlf_r", "r.wa", "/* another block comment, R, longer than the first\r\n   2nd line r\r\n   3rd line r */\r\nfunc main {\r\n\tt := `RAW R\r\nLINE 2 R\r\nLINE 3 R`\r\n\tprintln(len(t), t)\r\n}\r\n"},
+	{"crlf_s", "s.wa", "// plain line comment s\r\n/* S: a third block comment\r\n   with its own second line */\r\nfunc main {\r\n\tu := `third raw string, S\r\nits second line`\r\n\tprintln(u)\r\n}\r\n"},
 	{"fmt_i", "i.wa", `
 import "fmt"
 
